@@ -6,6 +6,7 @@ score (how many single edits of the anchored code the check reports) and a survi
 are not failures - many single edits are behaviour-preserving (messages, dead defaults, equivalent forms)."""
 import ast
 import copy
+import re
 import os
 import sys
 from concurrent.futures import ProcessPoolExecutor
@@ -199,10 +200,22 @@ def main(argv):
     quals = argv[1:]
     if not quals:
         quals = list(importlib.import_module(f"sa.rules.{pid.lower()}").ANCHORS)
+    mod = importlib.import_module(f"sa.rules.{pid.lower()}")
+    triage = getattr(mod, "AUTOMUT_TRIAGE", [])
     summary, res = run(pid, repo_root, quals)
+    explained = 0
     for q, d, v, det in res:
         if v != "violation":
-            print(f"{v:9s} {q} {d} {det if v == 'error' else ''}"[:200])
+            why = ""
+            if v == "ok":
+                for fre, dre, reason in triage:
+                    if re.search(fre, q) and re.search(dre, d):
+                        why = f"[triaged: {reason}]"
+                        explained += 1
+                        break
+            print(f"{v:9s} {q} {d} {det if v == 'error' else why}"[:260])
+    summary["auto_survivors_triaged"] = explained
+    summary["auto_survivors_untriaged"] = summary["auto_survivors"] - explained
     print(json.dumps({k: v for k, v in summary.items() if not k.endswith("sample")}))
     return 0
 
